@@ -260,7 +260,11 @@ func VerifPathTraversal() {
 				got++
 			}
 		}
-		verifrt.Assert(got == len(t.keysA), "loads:whole-file-fetched-when-consumed"+mp)
+		distinct := map[string]bool{}
+		for _, k := range t.keysA {
+			distinct[k] = true
+		}
+		verifrt.Assert(got == len(distinct), "loads:whole-file-fetched-when-consumed"+mp)
 	}
 	if !c.absent && c.kind == 3 && tsel >= 1 {
 		got := 0
